@@ -21,6 +21,12 @@
 //! 120 s via the same and via different gateways; `frag2` has a second neighbor whose oversized
 //! echo request competes for the single fragmentation buffer while fragments are pending.
 //!
+//! Discovery requests themselves (`NeighH::discovery`): an ARP request must name as sender an own
+//! address on the target's subnet when there is one (configuration `twonet`: two IPv4 subnets,
+//! scripted neighbors answer only senders inside their own subnet); a neighbor solicitation
+//! must come from an own unicast address. `twonet` and `routing` also send to off-link unicast
+//! destinations whose host part is all ones / all zeros under our masks (/24, /20).
+//!
 //! Lenient readings (statement leaves room; each can only accept more behaviours):
 //!  * "confirmed": any eligible assertion, or any IP packet addressed to one of our unicast
 //!    addresses whose IP source is the neighbor and whose link-layer source equals the asserted
